@@ -492,3 +492,17 @@ def inherited_neighbour_family():
         out += ["%s{a,{b,%s}}" % (l, x), "%s{{%s,b},a}" % (l, x), "%s<{b,%s}a:1,>" % (l, x), "%s{a,<%sb:2>}" % (l, x), "%s{a,{b,{e,%s}}}" % (l, x),
                 "%s{a,{b,%s}}/y" % (l, x), "%s{a,q{%s,b}}" % (l, x)]
     return list(dict.fromkeys(out))
+
+
+def flag_class_family():
+    """a case flag in force NEXT TO a class (classes are always case-sensitive), with caseless and cased literals around it,
+    at the place where partition cuts (after an invariant literal prefix) and inside branches"""
+    pres = ["(?i)2024/", "(?i)a/", "(?i)1", "(?i)x", "(?i)é/", "(?i)", "(?i)2024/(?-i)", "a/(?i)"]
+    classes = ["[ab]", "[!a]", "[a-c]", "[é]", "[B]", "[a-cX]"]
+    posts = ["*.txt", "", "x", "/b", "(?-i)x", "{a,B}", "<c:1,2>"]
+    out = []
+    for p in pres:
+        for c in classes:
+            for q in posts:
+                out += [p + c + q, p + "{" + c + q + ",z}", p + "<" + c + ":1,2>" + q]
+    return list(dict.fromkeys(out))
